@@ -275,6 +275,9 @@ def run(ctx):  # noqa: C901
     okl = ("call", "builtins.range", (("+", (("c", 1), ("n", "i"))), ("n", "num_bases")), ()) in loops
     ctx.ob("R-ENUM", mub, "every pair of distinct bases compared", okl, "j in range(i + 1, num_bases)" if okl else "basis-pair loop changed")
 
+    # ---- Gram matrix <-> vectors: one inner-product convention on both sides ----------------------------------------
+    _gram_round_trip(ctx)
+
     # ---- vec / unvec / commutant / tensor ---------------------------------------------------------------------
     vec, unvec = F(m, "vec"), F(m, "unvec")
     ov = [r["order"] for r in reshape_sites(m, vec) if r["kind"] == "reshape"]
@@ -423,3 +426,112 @@ def run(ctx):  # noqa: C901
     for nm in ("is_hermitian", "is_density", "is_identity"):
         r_effect_free(ctx, F(m, nm), ["mat"])
     r_effect_free(ctx, mo, ["vec_list"])
+
+
+def _row_of_factor(t, factor_pred):
+    """t: normalised expression of one returned vector, built from a factor matrix M (factor_pred(term) is True on M) and the
+    comprehension variable.  Returns (conj_parity, 'row' | 'col') -- which index of M the variable fixes and whether the entries
+    are conjugated -- or None when the expression is not of that shape."""
+    par = 0
+    # vector-level wrappers
+    while True:
+        if t[0] in ("conj", "dag"):
+            par ^= 1
+            t = t[1]
+        elif t[0] == "T":
+            t = t[1]
+        elif t[0] == "sub" and t[2][0] == "slice" and t[2][1:] == (("c", None), ("c", None), ("c", None)):
+            t = t[1]
+        elif t[0] == "call" and t[1] in ("numpy.conj", "numpy.conjugate") and t[2]:
+            par ^= 1
+            t = t[2][0]
+        else:
+            break
+    if t[0] != "sub":
+        return None
+    idx, mexp = t[2], t[1]
+    if idx[0] == "b":
+        which = 0
+    elif idx[0] == "tuple" and len(idx) == 3 and idx[1][0] == "slice" and idx[2][0] == "b":
+        which = 1
+    elif idx[0] == "tuple" and len(idx) == 3 and idx[2][0] == "slice" and idx[1][0] == "b":
+        which = 0
+    else:
+        return None
+    tr = 0
+    while not factor_pred(mexp):
+        if mexp[0] == "conj":
+            par ^= 1
+        elif mexp[0] == "T":
+            tr ^= 1
+        elif mexp[0] == "dag":
+            par ^= 1
+            tr ^= 1
+        else:
+            return None
+        mexp = mexp[1]
+    return par, ("row", "col")[which ^ tr]
+
+
+def _gram_round_trip(ctx):
+    """vectors_to_gram_matrix computes G_ij = <v_i, v_j> = (S^+ S)_ij with S = column_stack(vectors) (conjugate-linear in the first
+    slot).  vectors_from_gram_matrix factors G = M M^+ (Cholesky M = L; spectral M = V sqrt(D)); S^+ S = G then needs S = M^+, i.e.
+    the i-th vector is the conjugated i-th ROW of M.  Unconjugated rows give conj(G) back (F22)."""
+    m = ctx.model
+    tg, fg = F(m, "vectors_to_gram_matrix"), F(m, "vectors_from_gram_matrix")
+    Ng = Normalizer(m, tg, inline=True)
+    rt = [Ng(n.value) for n in ast.walk(tg.node) if isinstance(n, ast.Return) and n.value is not None]
+    conv = None
+    for t in rt:
+        if t[0] == "@" and len(t[1]) == 2:
+            a, b = t[1]
+            if a == ("dag", b) and b[0] == "call" and b[1] == "numpy.column_stack":
+                conv = "conj-first"
+            elif b == ("dag", a) and a[0] == "call" and a[1] == "numpy.column_stack":
+                conv = "conj-second-columns"
+    ctx.ob("R-SIB", tg, "Gram matrix is S^+ S for S = column_stack(vectors)", conv == "conj-first",
+           "G_ij = <v_i, v_j>, conjugate-linear in the first argument" if conv == "conj-first" else f"Gram form not recognised ({[show(t)[:60] for t in rt]})",
+           required=conv is not None)
+    if conv != "conj-first":
+        return
+    Nf = Normalizer(m, fg, inline=True)
+    branches = {"cholesky": None, "spectral": None}
+    for n in ast.walk(fg.node):
+        if isinstance(n, ast.Return) and n.value is not None:
+            t = Nf(n.value)
+            if t[0] == "comp" and t[2]:
+                e = t[2][0]
+                if "numpy.linalg.cholesky" in repr(e):
+                    branches["cholesky"] = (n, e, lambda x: x[0] == "call" and x[1] == "numpy.linalg.cholesky")
+                elif "numpy.linalg.eig" in repr(e):
+                    branches["spectral"] = (n, e, lambda x: x[0] == "sub" and x[2] == ("c", 1) and x[1][0] == "call" and str(x[1][1]).startswith("numpy.linalg.eig"))
+    for nm, br in branches.items():
+        key = f"{nm} branch: the i-th vector is the conjugated i-th row of the factor M (G = M M^+)"
+        if br is None:
+            ctx.ob("R-SIB", fg, key, None, "branch not recognised", required=False)
+            continue
+        n, e, pred = br
+        if nm == "spectral":
+            # sqrt(D) @ <vector>
+            if e[0] == "@" and len(e[1]) == 2 and "sqrt" in repr(e[1][0]):
+                e = e[1][1]
+            else:
+                ctx.ob("R-SIB", fg, key, None, f"element `{show(e)[:60]}` is not sqrt(D) @ vector", n, required=False)
+                continue
+        r = _row_of_factor(e, pred)
+        if r is None:
+            ctx.ob("R-SIB", fg, key, None, f"element `{show(e)[:60]}` not a row / column of the factor", n, required=False)
+            continue
+        ok = r == (1, "row")
+        ctx.ob("R-SIB", fg, key, ok, "conj(M[i, :])" if ok else
+               f"the vectors are the {'conjugated ' if r[0] else ''}{r[1]}s of the factor: vectors_to_gram_matrix then returns "
+               + ("conj(G)" if r == (0, "row") else "M^+ M (or its conjugate)") + " instead of G for a complex Gram matrix", n)
+    # Hermitian eigendecomposition: numpy.linalg.eig returns non-orthogonal eigenvectors inside a degenerate eigenspace, so
+    # V D V^+ != G; the unitary diagonalisation of a Hermitian matrix is eigh
+    eigs = [n for n in ast.walk(fg.node) if isinstance(n, ast.Call) and (m.resolve_call(fg, n).key or "").startswith(("numpy.linalg.eig", "scipy.linalg.eig"))]
+    if eigs:
+        k = m.resolve_call(fg, eigs[0]).key
+        okh = k.endswith("eigh")
+        ctx.ob("R-KIND", fg, "spectral fallback diagonalises the Hermitian Gram matrix with eigh (orthonormal eigenvectors)", okh,
+               k if okh else f"`{unparse(eigs[0])}`: for a repeated eigenvalue eig's eigenvectors are not orthonormal, so sum_k d_k v_k v_k^+ != G "
+               "(rank-2 projector in dimension 4: round-trip error 0.34)", eigs[0])
